@@ -75,10 +75,28 @@
                            `events_by_roles`, `regs_by_roles`,
                            `codegen_ops_match_model`, `eval_ops_match_model`.
 
+  T7 `frame_sound`         where the MACHINE CODE puts the memory T5 gives an
+                           activation (`Generated/C12Frame`, from
+                           `ModuleBuilder::define_function` /
+                           `FuncGen::entry_block` / every data object declared
+                           under `src/codegen/`): the decision `slotsInFrame`
+                           holds iff every arm of the match over
+                           `lir::ValueOrSlot` (guards included) backs a slot
+                           variable with a Cranelift explicit stack slot whose
+                           address is taken with `stack_addr`, and the JIT module
+                           holds no writable / thread-local data object. Then
+                           (`frame_slots_private`) for any number of activations
+                           — calls on any threads, recursive re-entries — and ANY
+                           interleaving of their slot writes and reads, each
+                           activation reads what it reads alone; with one block
+                           per module two activations interfere
+                           (`module_slot_interferes`). `slots_in_frame_on_tree`
+                           is the generated obligation.
+
   Not modelled (exercised by the stress harness only): data races inside the
   machine code itself (T5's machine is at the level of LIR instructions; that a
-  stack slot is memory of the running thread is trusted), the `symbol_table`
-  interner.
+  Cranelift explicit stack slot is memory of the running activation is trusted —
+  that slot variables ARE such slots is T7), the `symbol_table` interner.
 -/
 import RotoV.Lemmas.Conc
 import RotoV.Lemmas.ConcShare
